@@ -1,5 +1,6 @@
 import Cjet.Startup
 import Cjet.Lemmas.Startup
+import Cjet.Lemmas.StartupErr
 /-!
 Property theorems of the `Startup` component (C07 / C15): start-up and shut-down paths of
 /repo/src/linux/linux_io.c, for BOTH configurations (`localOnly`), with / without a user name, foreground
@@ -320,15 +321,20 @@ theorem unix_path_unlinked (c : Cfg) (script : List Ans) :
       | privFailed => dsimp only at hs ⊢; obtain ⟨_, ps, hl, _⟩ := hs; rw [show k.led = _ from hl, udsIn_listeners]; rfl
       | daemonFailed => dsimp only at hs ⊢; obtain ⟨_, ps, hl, _⟩ := hs; rw [show k.led = _ from hl, udsIn_listeners]; rfl
 
-/-- run_io returns 0 exactly when it got through everything and the loop returned 0; every other end — a
-    signal handler that cannot be installed, loop init, any listener that cannot be created / registered /
-    whose first accept pass aborts, privileges, daemon(), a failing loop — returns -1; a failed loop
-    init also clears go_ahead. -/
+/-- Any step that fails for good makes run_io return non-zero: when run_io returns 0 the monitor of hard
+    failures (`hardFailures`: every failing call counts, except that failing socket / setsockopt / fcntl / bind
+    calls inside create_server_socket_bound's loop over the getaddrinfo results count only when no address of
+    that list could be bound) is at 0.  run_io returns 0 exactly when it got through everything and the loop
+    returned 0; every other end — a signal handler that cannot be installed, loop init, any listener that
+    cannot be created / registered / whose first accept pass aborts, privileges, daemon(), a failing loop —
+    returns -1; a failed loop init also clears go_ahead. -/
 theorem error_reported (c : Cfg) (script : List Ans) :
+    (0 < hardFailures (run c script).2.tr → (run c script).1.ret ≠ 0) ∧
     ((run c script).1.ret = 0 ↔ (run c script).1 = .servers (.jet (.ran true))) ∧
     ((run c script).1.ret ≠ 0 → (run c script).1.ret = -1) ∧
     ((run c script).1.ret = 0 → Ev.run true ∈ (run c script).2.tr) ∧
     ((run c script).2.goAhead = false ↔ (run c script).1 = .initFailed) := by
+  refine ⟨fun hh hr => by have := run_ok_no_hard_failure c script hr; omega, ?_⟩
   have hs := runIo_spec c (K.start script) rfl
   have hord := shutdown_order c script true
   unfold run at hord ⊢
@@ -353,5 +359,12 @@ theorem error_reported (c : Cfg) (script : List Ans) :
         · simp [IoEnd.ret, StackEnd.ret, JetEnd.ret, hs.1]
         · obtain ⟨acc, k1, mid, _, _, ht, _⟩ := hord rfl
           simp [IoEnd.ret, StackEnd.ret, JetEnd.ret, hs.1, ht]
+
+-- the monitor counts: a failing bind of the second listener; two of three addresses failing does not count
+example : hardFailures (run ⟨false, false, true, .asIs⟩ ((List.replicate 16 Ans.ok) ++ [.fail])).2.tr = 1 := by
+  decide +kernel
+example : hardFailures (run ⟨true, false, true, .asIs⟩ ((List.replicate 4 Ans.ok) ++ [.addrs 3, .fail, .ok, .fail])).2.tr = 0 ∧
+    (run ⟨true, false, true, .asIs⟩ ((List.replicate 4 Ans.ok) ++ [.addrs 3, .fail, .ok, .fail])).1.ret = 0 := by
+  decide +kernel
 
 end Cjet.Props.Startup
